@@ -15,8 +15,8 @@ import (
 
 	"github.com/openebs/jiva/replica"
 	"github.com/openebs/jiva/types"
-	"github.com/sirupsen/logrus"
 	"github.com/openebs/sparse-tools/sparse"
+	"github.com/sirupsen/logrus"
 
 	"verif/harness/internal/fsx"
 	"verif/harness/internal/vk"
